@@ -55,7 +55,49 @@ func canon(s string) string {
 		return "R"
 	})
 	s = strings.ReplaceAll(s, "runtime.", "")
+	s = reV2Operand.ReplaceAllString(s, "$1")
+	s = reElem.ReplaceAllString(s, "elem")
 	return s
+}
+
+var (
+	reV2Operand = regexp.MustCompile(`\(([LR]), \d+\)`)
+	reElem      = regexp.MustCompile(`[^\s(),]*\[\*\]`)
+	reCallAtom  = regexp.MustCompile(`[A-Za-z_.]+\([^()]*\)`)
+)
+
+// summariseLoop: an outcome set that contains an unrolled loop is rendered by its distinct results and the
+// distinct call atoms tested on the way (the unrolling depth is an artefact of the path enumeration).
+func summariseLoop(set map[string]bool) (string, bool) {
+	hasLoop := false
+	for k := range set {
+		if strings.Contains(k, "…loop") {
+			hasLoop = true
+		}
+	}
+	if !hasLoop {
+		return "", false
+	}
+	vals, tests := map[string]bool{}, map[string]bool{}
+	for k := range set {
+		if strings.Contains(k, "…loop") {
+			continue
+		}
+		v := k
+		if i := strings.Index(k, " if "); i >= 0 {
+			v = k[:i]
+			for _, a := range strings.Split(k[i+4:], " && ") {
+				for strings.HasPrefix(a, "!(") && strings.HasSuffix(a, ")") {
+					a = a[2 : len(a)-1]
+				}
+				if !strings.HasPrefix(a, "(") {
+					tests[a] = true // a call used as a test (comparisons of loop counters are dropped)
+				}
+			}
+		}
+		vals[v] = true
+	}
+	return "LOOP{" + joinOutcomes(vals) + "} tests{" + joinOutcomes(tests) + "}", true
 }
 
 type tagNamer struct{ byVal map[string]string }
@@ -99,6 +141,13 @@ func (tn *tagNamer) outcome3(val, tag, err sval, conds []string) string {
 		return canon(val.String()) + " : " + tn.name(tag) + suffix
 	}
 	return canon(val.String()) + " : " + tn.name(tag) + " err=" + canon(err.String()) + suffix
+}
+
+func joinOutcomesL(set map[string]bool) string {
+	if s, ok := summariseLoop(set); ok {
+		return s
+	}
+	return joinOutcomes(set)
 }
 
 func joinOutcomes(set map[string]bool) string {
@@ -193,7 +242,7 @@ func extractOpTables(t *Tree, pkg string) *opTables {
 				set[fmt.Sprint(o.Vals, eff)+suffix] = true
 			}
 		}
-		return joinOutcomes(set)
+		return joinOutcomesL(set)
 	}
 	v1render := func(outs []specOutcome) string {
 		set := map[string]bool{}
@@ -204,7 +253,7 @@ func extractOpTables(t *Tree, pkg string) *opTables {
 				set[canon(fmt.Sprint(o.Vals))] = true
 			}
 		}
-		return joinOutcomes(set)
+		return joinOutcomesL(set)
 	}
 
 	// ---- condOp
